@@ -16,6 +16,8 @@ class MethodsMixin:
         ip = self.ip
         sc, cx = env
         a = None
+        if rv is None:
+            return None
 
         def A(hints=None):
             nonlocal a
@@ -27,7 +29,7 @@ class MethodsMixin:
             return ip.deref(A()[i])
 
         # lock wrappers are transparent (single threaded model; DESIGN: concurrency not modelled)
-        if name in ("read", "write", "lock") and not isinstance(rv, (Vc, S)) and not args:
+        if name in ("read", "write", "lock") and not isinstance(rv, S) and not args:
             return ok(Rf(place)) if place is not None else ok(rv)
         if name in ("unwrap", "expect") and isinstance(rv, En) and rv.name == "Result" and isinstance(rv.tag, int) and rv.tag == 0:
             return rv.pl[0][0]
@@ -53,6 +55,8 @@ class MethodsMixin:
                 return {"is_lt": t == 0, "is_le": t <= 1, "is_gt": t == 2, "is_ge": t >= 1, "is_eq": t == 1, "is_ne": t != 1}[name]
             if name in CLONE_LIKE:
                 return rv
+        if name == "into" and hint and hint[0] in ip.froms and not (isinstance(rv, (St, En)) and rv.name == hint[0]):
+            return ip.convert_into(rv, hint[0])
         if name in ("cmp", "partial_cmp") and not isinstance(rv, (Seq,)):
             o = ip.cmp(rv, D())
             return o if name == "cmp" else some(o)
@@ -74,6 +78,15 @@ class MethodsMixin:
                 x, y = rv.z(), o.z()
                 return F(z3.fpMax(x, y) if name == "max" else z3.fpMin(x, y))
             return ite(c, rv, o) if name == "max" else ite(c, o, rv)
+        if isinstance(rv, I) and name in ("fetch_add", "fetch_sub", "load", "store", "into_inner", "get", "set") and (place is not None or name in ("load", "into_inner", "get")):
+            # atomics / Cell are plain integers in the single-threaded model
+            if name in ("load", "into_inner", "get"):
+                return rv
+            if name in ("store", "set"):
+                ip.write(place, D(0))
+                return V.UNIT
+            ip.write(place, self.binop("Add" if name == "fetch_add" else "Sub", rv, D(0)))
+            return rv
         if isinstance(rv, I):
             return self.m_int(name, rv, A, D, hint)
         if isinstance(rv, F):
@@ -509,6 +522,16 @@ class MethodsMixin:
             if isinstance(o, S):
                 i = s.find(o.v)
                 return some(I(len(s[:i].encode()), "usize")) if i >= 0 else none()
+            if isinstance(o, (Clo, FnV)):
+                off = 0
+                for ch in s:
+                    r = ip.deref(ip.call_value(o, [S(ch)]))
+                    if r is True:
+                        return some(I(off, "usize"))
+                    if r is not False:
+                        raise Unsupported("str::find with a symbolic predicate")
+                    off += len(ch.encode())
+                return none()
         if name == "rfind":
             o = D()
             if isinstance(o, S):
